@@ -2777,13 +2777,20 @@ void SoPlexBase<R>::clearLPReal()
 {
    assert(_realLP != nullptr);
 
+   // clearing an LP resets its objective sense and offset; both are parameters of this class and keep their values
    _realLP->clear();
+   _realLP->changeSense(intParam(SoPlexBase<R>::OBJSENSE) == SoPlexBase<R>::OBJSENSE_MAXIMIZE ? SPxLPBase<R>::MAXIMIZE :
+                        SPxLPBase<R>::MINIMIZE);
+   _realLP->changeObjOffset(realParam(SoPlexBase<R>::OBJ_OFFSET));
    _hasBasis = false;
    _rationalLUSolver.clear();
 
    if(intParam(SoPlexBase<R>::SYNCMODE) == SYNCMODE_AUTO)
    {
       _rationalLP->clear();
+      _rationalLP->changeSense(intParam(SoPlexBase<R>::OBJSENSE) == SoPlexBase<R>::OBJSENSE_MAXIMIZE ?
+                               SPxLPRational::MAXIMIZE : SPxLPRational::MINIMIZE);
+      _rationalLP->changeObjOffset(realParam(SoPlexBase<R>::OBJ_OFFSET));
       _rowTypes.clear();
       _colTypes.clear();
    }
@@ -3720,7 +3727,11 @@ void SoPlexBase<R>::clearLPRational()
 {
    assert(_rationalLP != nullptr);
 
+   // clearing an LP resets its objective sense and offset; both are parameters of this class and keep their values
    _rationalLP->clear();
+   _rationalLP->changeSense(intParam(SoPlexBase<R>::OBJSENSE) == SoPlexBase<R>::OBJSENSE_MAXIMIZE ?
+                            SPxLPRational::MAXIMIZE : SPxLPRational::MINIMIZE);
+   _rationalLP->changeObjOffset(realParam(SoPlexBase<R>::OBJ_OFFSET));
    _rationalLUSolver.clear();
    _rowTypes.clear();
    _colTypes.clear();
@@ -3728,6 +3739,9 @@ void SoPlexBase<R>::clearLPRational()
    if(intParam(SoPlexBase<R>::SYNCMODE) == SYNCMODE_AUTO)
    {
       _realLP->clear();
+      _realLP->changeSense(intParam(SoPlexBase<R>::OBJSENSE) == SoPlexBase<R>::OBJSENSE_MAXIMIZE ? SPxLPBase<R>::MAXIMIZE :
+                           SPxLPBase<R>::MINIMIZE);
+      _realLP->changeObjOffset(realParam(SoPlexBase<R>::OBJ_OFFSET));
       _hasBasis = false;
    }
 
